@@ -90,12 +90,14 @@ class Family:
         # one more level below c_(0,1) and c_(0,2), for the mixed-resolution scenario
         self.D: Dict[Tuple[int, int], List[Lin]] = {}
         if r + 1 <= 29 and len(self.C[0]) >= 4:
-            for j in (1, 2):
-                rets, raises = children_family(interp, self.C[0][j], Lin(r + 1))
+            last = len(self.P) - 1
+            wanted = [(0, 1), (0, 2)] + ([(last, j) for j in range(len(self.C[last]))] if 1 <= last <= 4 else [])
+            for a_, j in wanted:
+                rets, raises = children_family(interp, self.C[a_][j], Lin(r + 1))
                 if len(rets) == 1 and not raises:
                     ds = _concrete(rets[0].value)
                     if ds:
-                        self.D[(0, j)] = ds
+                        self.D[(a_, j)] = ds
         self.ok = True
 
     def generality(self) -> str:
@@ -201,6 +203,12 @@ def scenarios(f: Family) -> List[Tuple[str, List[tuple]]]:
     out.append(("a cell together with one of its other children (overlapping input)", [grp0[-1], ("P", 0)]))
     if f.r - 2 >= 0:
         out.append(("a cell, its first child and that child's first child (overlapping input)", [("G",), ("P", 0), grp0[0]]))
+    lastP = nP - 1
+    if 1 <= lastP <= 4 and all((lastP, j) in f.D for j in range(len(f.C[lastP]))):
+        deep = [("d", lastP, j, m) for j in range(len(f.C[lastP])) for m in range(len(f.D[(lastP, j)]))]
+        out.append(("every child but the last given directly, the last one only as its grandchildren (two levels finer)",
+                    [("P", a) for a in range(lastP)] + deep))
+        out.append(("the same, grandchildren first", deep + [("P", a) for a in range(lastP)]))
     if (0, 1) in f.D and (0, 2) in f.D and k == 4:
         out.append(("first and last member with one finer descendant of each middle member between them",
                     [grp0[0], ("d", 0, 1, 0), ("d", 0, 2, 0), grp0[3]]))
@@ -307,8 +315,11 @@ def run(ob, su, want_prefix: str) -> Dict[str, int]:
                 if "overlapping input" in title:
                     continue          # the canonical form is defined for inputs without a cell and its descendant
                 if sorted(got) != want:
+                    lv = [fam.leaves(g_) for g_ in got]
+                    nested = any(i != j and lv[i] < lv[j] for i in range(len(got)) for j in range(len(got)))
                     why = "repeats a cell" if len(set(got)) != len(got) else \
-                        ("keeps a complete sibling group" if len(got) > len(want) else "is not the canonical set")
+                        ("holds a cell together with one of its ancestors" if nested else
+                         ("keeps a complete sibling group" if len(got) > len(want) else "is not the canonical set"))
                     ob("C09.8", f"{tag}: the result {why}", core.VIOLATED, where,
                        f"input {_show(names)} -> {_show(got)}; canonical: {_show(want)}")
                 else:
